@@ -80,6 +80,7 @@ var Mutants = []Mutant{
 	// C08
 	{ID: "mapstring-go-order", Props: []string{"C08", "C12"}, Rule: "R-MAPRANGE", File: "pkg/evaluator/value.go", Find: "func (m *mapVal) String() string {\n\tpairs := make([]string, 0, len(m.Pairs))\n\tfor _, key := range *m.Order {\n\t\tpairs = append(pairs, key+\":\"+m.Pairs[key].String())", Replace: "func (m *mapVal) String() string {\n\tpairs := make([]string, 0, len(m.Pairs))\n\tfor key, v := range m.Pairs {\n\t\tpairs = append(pairs, key+\":\"+v.String())", Expect: "(*mapVal).String#maprange", Describe: "maps print in Go map order"},
 	{ID: "rand-reseed", Props: []string{"C08"}, Rule: "R-TIMESOURCE", File: "pkg/evaluator/builtin.go", Find: "func rand1Func(_ *scope, _ []value) (value, error) {\n", Replace: "func rand1Func(_ *scope, _ []value) (value, error) {\n\t_ = time.Now()\n", Expect: "rand1Func→time.Now", Describe: "rand1 reads the clock"},
+	{ID: "error-prints-scope-address", Props: []string{"C08"}, Rule: "R-ADDRPRINT", File: "pkg/evaluator/evaluator.go", Find: "fmt.Errorf(\"%w: step cannot be 0, infinite loop\", ErrRangevalue)", Replace: "fmt.Errorf(\"%w: step cannot be 0, infinite loop in %v\", ErrRangevalue, e.scope)", Expect: "#fmt[", Describe: "a panic text contains the address of the enclosing scope"},
 	// C09
 	{ID: "steprange-reuse-num", Props: []string{"C09"}, Rule: "R-IMMUT", File: "pkg/evaluator/builtin.go", Find: "\tscope.update(\"err\", &boolVal{V: isErr})", Replace: "\tif v, ok := scope.get(\"err\"); ok {\n\t\tv.(*boolVal).V = isErr\n\t}", Expect: "globalErr#store:boolVal.V", Describe: "err is overwritten in place"},
 	{ID: "slice-alias", Props: []string{"C09"}, Rule: "R-FRESH", File: "pkg/evaluator/value.go", Find: "\telements := make([]value, endIdx-startIdx)\n\tfor i := startIdx; i < endIdx; i++ {\n\t\tv := (*a.Elements)[i]\n\t\telements[i-startIdx] = copyOrRef(v)\n\t}\n\treturn &arrayVal{Elements: &elements}, nil", Replace: "\telements := (*a.Elements)[startIdx:endIdx]\n\treturn &arrayVal{Elements: &elements}, nil", Expect: "(*arrayVal).Slice#new-arrayVal", Describe: "slicing aliases the array"},
